@@ -332,6 +332,24 @@ example : (run { cfgDemo with maxAuthTries := 2 } [noneReq, noneReq, noneReq]).1
     countFailures (run { cfgDemo with maxAuthTries := 2 } [noneReq, noneReq, noneReq]).1 = (2, 3) := by
   decide
 
+set_option maxRecDepth 20000 in
+/-- unlimited tries: 128 rejected passwords are all answered, the 129th request is never read -/
+example : (run { cfgDemo with maxAuthTries := -1 } (List.replicate 130 pwFail)).1.getLast? = some .sendDisconnect ∧
+    ((run { cfgDemo with maxAuthTries := -1 } (List.replicate 130 pwFail)).1.filter
+      (fun e => match e with | .cbPw .. => true | _ => false)).length = 128 := by decide
+
+/-- partial success for user a, then the same request for user b: refused outright -/
+example : (run cfgDemo
+    [.req { user := "a", service := "ssh-connection", method := "password", cb := .partialOk ⟨true, false, false, false⟩ 0 },
+     .req { user := "b", service := "ssh-connection", method := "password", cb := .accept 1 }]).2 = .err := by decide
+
+/-- query key 1 (accepted), query key 2 (accepted), sign with key 2: the last PublicKeyCallback
+    invocation of the log is the one for key 2 -/
+example : lastPkEv (run cfgDemo
+    [.req (pkDemo true), .req { pkDemo true with pk := { (pkDemo true).pk with key := 2 } },
+     .req { pkDemo false with pk := { (pkDemo false).pk with key := 2 }, cb := .reject }]).1 =
+    some (0, "a", 2, .accept 2) := by decide
+
 example : SaSpec .tcp [.ipNe, .cidrOut, .cidrIn, .bad] := ⟨rfl, [.ipNe, .cidrOut], .cidrIn, [.bad], rfl, rfl, by simp⟩
 example : ¬ SaSpec .tcp [.ipNe, .bad, .cidrIn] := by
   intro ⟨_, h⟩
